@@ -66,6 +66,31 @@ CHECKS = {
          "All 1936 server and 88 client builder configurations are built over simnet: no panic, one well-formed SETTINGS frame first on the control stream, no duplicate / HTTP/2-reserved id, effective values equal to the configured ones (varint maximum or a failed build for values >= 2^62), other ids of the reserved form. Received payloads (all <= 2-entry payloads over 12 ids x 5 values x 2 varint forms with every truncation, 3 entries in thorough, random longer ones with duplicates, permutations and truncations; both roles): duplicate known / HTTP/2-reserved id => H3_SETTINGS_ERROR at transport and driver, truncated => a connection error, otherwise no error and the applied settings (booleans via settings(), MAX_FIELD_SECTION_SIZE via the send limit of a probe message) equal the reference interpretation; no SETTINGS => defaults.",
          "trusted: src/reference/settings.rs, src/simnet/wire.rs; boolean settings with values other than 0/1 and repeated unknown ids are outside the statement",
          "DESIGN.md section 3 C13"),
+ "C06": ("simnet",
+         "fault injection at every step index of template scenarios + grammar-directed byte mutation + arbitrary bytes (property-based, tape-driven), validity oracle: no panic, nothing pending at quiescence after the peer ended the stream or the connection",
+         "Adversarial raw-peer scripts against both roles under the documented application patterns: five well-formed templates (request with body/trailers/grease, concurrent requests, control traffic with GOAWAY, QPACK/push/unknown/grease uni streams, WebTransport-ish streams) with one of {FIN, RESET, STOP_SENDING, connection close, idle timeout} x codes injected at EVERY step index and every truncation of every write (exhaustive tier), plus random multi-fault, byte-mutated (flip/insert/delete/truncate/varint tweaks) and arbitrary-bytes scripts; every script ends with a connection close / timeout or with all request-stream directions finished. Each poll is wrapped in catch_unwind (h3 built with overflow checks and debug assertions); at quiescence every h3 future must have completed (connection-level waits excepted after the streams-only epilogue); a spurious poll separates lost wake-ups from genuine waits.",
+         "trusted: quiescence of the closed simulated system decides 'forever'; applications follow the documented call patterns; unlimited send credit in this check",
+         "DESIGN.md section 3 C06, 2.5"),
+ "C07": ("simnet",
+         "enumeration of (fault kind x victim subset) + property-based testing over generated request sets, merged operation orders and schedules; oracle = per-request round trip for healthy requests + stream-level error table for faulty ones + 'no close, no driver error' invariant",
+         "2..4 concurrent requests on one connection against a real h3 server and, mirrored, a real h3 client; any subset suffers one of RESET(code) at a byte offset, STOP_SENDING(code) at a moment, a validly encoded malformed message, an oversized section, FIN before HEADERS, an abandoned stream; operations of all streams are merged in tape order. Healthy requests must see exactly their own body and end of message and h3 must write exactly HEADERS + DATA(own echo) + FIN on their stream; faulty ones report, if anything, RemoteTerminate{peer code} / H3_MESSAGE_ERROR / HeaderTooBig / H3_REQUEST_INCOMPLETE; zero close calls, no driver error, every announced request accepted.",
+         "trusted: reference frame parser for the written side, simulated transport",
+         "DESIGN.md section 3 C07"),
+ "C08": ("simnet",
+         "exhaustive enumeration of short histories (odometer) + property-based testing of long ones; oracle = invariants over the GOAWAY / accept / reject history read from the wire (reference parser) and the transport event log",
+         "Server: all histories of <= 5 operations over {request arrives (HEADERS at once or late), shutdown(0..3), a request completes, settle} under two schedules, random histories up to 20 operations: GOAWAY ids never increase and are client-initiated bidi ids; for every GOAWAY id g no stream >= g is ever returned by accept(); every stream taken from the transport is returned by accept() or STOP_SENDING'd and RESET with H3_REQUEST_REJECTED (both, never neither); while accepting, every arrived stream below the last id is served. Client: all sequences of <= 3 (4) received GOAWAY ids over 10 ids each followed by a send_request attempt: RemoteClosing and no new stream after a processed GOAWAY; increasing or non-request ids => H3_ID_ERROR at transport and driver.",
+         "trusted: streams are announced in id order (QUIC); transport event log of the simulator",
+         "DESIGN.md section 3 C08"),
+ "C09": ("simnet",
+         "exhaustive enumeration of request-ending histories + property-based testing; oracle = quiescence invariant accept()==None iff all handed-out requests ended (ground truth counted by the handlers)",
+         "All histories of <= 3 requests x 12 (ending, immediate/late) options x GOAWAY position under two schedules, random ones up to 4 requests: endings {normal, resolver dropped, FIN before HEADERS, RESET before/after HEADERS, malformed headers, split halves dropped separately, never}. With the peer's GOAWAY processed and every handed-out request ended the accept loop must have observed Ok(None) at quiescence; otherwise it must not; at the instant accept() returns None no handed-out request may be alive.",
+         "trusted: quiescence decides 'forever'; handlers bump the ended counter in the same poll as dropping their last handle",
+         "DESIGN.md section 3 C09"),
+ "C19": ("simnet",
+         "exhaustive enumeration of every header/payload cut offset + property-based testing; oracle = session-id equality at three places and payload round trip, reference varints for the wire header",
+         "A real h3 server with h3-webtransport over simnet, raw client: the CONNECT request is the (j+1)-th real request (j in {0,1,2,15,16,17}, random up to 40); peer-opened bidi (0x41) and uni (0x54, all varint forms) streams arrive in two steps cut at every offset of header+payload, with/without FIN; server-opened bidi/uni streams, one datagram each way, poll_data or AsyncRead with small buffers, the documented single-task select loop. session_id() == CONNECT stream id; server-opened streams start with type + that id + exactly the payload; attached SessionId == id on the wire; bytes read == bytes after the header; a complete header is surfaced without further bytes; with the extension disabled no uni stream is surfaced; never a connection error.",
+         "trusted: reference varint; the application uses the documented single-task select pattern with persistent futures",
+         "DESIGN.md section 3 C19"),
 }
 
 NOT_YET = "check not built yet in this session (see DESIGN.md section 5 for the construction order); no claim is made"
